@@ -1531,6 +1531,8 @@ func main() {
 		}
 	}
 	lap("phase3")
+	phase4(r, idKept, idDropped) // look-alike rules with downstream samplers (phase4.go)
+	lap("phase4")
 	r.Set("phase_wall_s", phaseWall)
 	// ---- verdicts, in a deterministic order, the minimal (earliest enumerated) case per class
 	var sigs []string
